@@ -207,6 +207,16 @@ Lemma live_roles_present_2 :
   has_role c07_rows 7 = true /\ has_role c07_rows 8 = true /\ has_role c07_rows 9 = true /\ has_role c07_rows 10 = true.
 Proof. vm_compute. repeat split. Qed.
 
+(* no binding of the real table has a handler that calls Buffer.redo *)
+Lemma live_no_redo_rows : forallb (fun r => negb (r_act r =? 2)) c07_rows = true.
+Proof. vm_compute. reflexivity. Qed.
+
+Theorem live_no_redo_handler : tbl_no_redo_handler c07_rows.
+Proof.
+  intros h E. pose proof (forallb_lookup _ c07_rows h live_no_redo_rows eq_refl) as H. cbn beta in H.
+  rewrite E in H. discriminate.
+Qed.
+
 (* ---- the rows as they stood at the pinned commit ---- *)
 
 (* Typing "xy" after "abc" and pressing the (emacs) undo key once: the text
